@@ -797,6 +797,28 @@ func genMain(args []string) {
 		g.vars = []string{"v", "w"}
 	}
 	for i := 0; i < *n; i++ {
+		if *prof == "numops" {
+			ops := []string{"+", "-", "*", "/", "%", "%", "<", "<=", ">", ">=", "=", "!="}
+			x, y := g.numX(), g.numX()
+			switch g.r.Intn(4) {
+			case 0:
+				x["e"] = x["e"].(int) + g.r.Intn(40)
+			case 1:
+				y["e"] = y["e"].(int) + g.r.Intn(25)
+			case 2:
+				// whole numbers
+				x["e"], y["e"] = g.r.Intn(22), g.r.Intn(4)
+			}
+			c := M{"fn": "op", "op": ops[g.r.Intn(len(ops))], "xd": x, "yd": y}
+			if g.r.Intn(5) == 0 {
+				c["yd"] = x
+				c["ynudge"] = g.r.Intn(3) - 1
+			}
+			b, _ := json.Marshal(M{"id": *start + i, "fam": *fam, "mode": "num", "flags": M{"calls": []interface{}{c}}})
+			w.Write(b)
+			w.WriteByte('\n')
+			continue
+		}
 		if *prof == "numfmt" {
 			b, _ := json.Marshal(M{"id": *start + i, "fam": *fam, "mode": "num", "flags": M{"calls": g.numCalls()}})
 			w.Write(b)
